@@ -129,9 +129,10 @@ def lexeme_classes():
     C["int_hex"] = (["INT_NUMBER"], [(3, rx.seq(rx.ch("0"), rx.anyof("xX"), HEX)), (5, rx.seq(rx.ch("0"), rx.anyof("xX"), HEX, rx.ch("_"), HEX))])
     C["float"] = (["FLOAT_NUMBER"], [(3, rx.seq(DIG, rx.ch("."), DIG)), (2, rx.seq(DIG, rx.ch("."))), (2, rx.seq(rx.ch("."), DIG)),
                                      (3, rx.seq(DIG, rx.anyof("eE"), DIG)), (4, rx.seq(DIG, rx.anyof("eE"), rx.anyof("+-"), DIG)),
-                                     (5, rx.seq(DIG, rx.ch("."), DIG, rx.anyof("eE"), DIG)), (4, rx.seq(rx.ch("."), DIG, rx.anyof("eE"), DIG))])
+                                     (5, rx.seq(DIG, rx.ch("."), DIG, rx.anyof("eE"), DIG)), (4, rx.seq(rx.ch("."), DIG, rx.anyof("eE"), DIG)),
+                                     (5, rx.seq(DIG, rx.ch("_"), DIG, rx.ch("."), DIG)), (5, rx.seq(DIG, rx.ch("_"), DIG, rx.anyof("eE"), DIG))])
     for u in UNITS:
-        C[f"int_{u}"] = (["INT_NUMBER", "IDENT"], [(1 + len(u), rx.seq(DIG, rx.lit(u)))])
+        C[f"int_{u}"] = (["INT_NUMBER", "IDENT"], [(1 + len(u), rx.seq(DIG, rx.lit(u))), (2 + len(u), rx.seq(DIG, DIG, rx.lit(u))), (3 + len(u), rx.seq(DIG, rx.ch("_"), DIG, rx.lit(u)))])
         C[f"float_{u}"] = (["FLOAT_NUMBER", "IDENT"], [(3 + len(u), rx.seq(DIG, rx.ch("."), DIG, rx.lit(u))), (2 + len(u), rx.seq(rx.ch("."), DIG, rx.lit(u))),
                                                         (2 + len(u), rx.seq(DIG, rx.ch("."), rx.lit(u))), (4 + len(u), rx.seq(rx.ch("."), DIG, rx.anyof("eE"), DIG, rx.lit(u))),
                                                         (3 + len(u), rx.seq(DIG, rx.anyof("eE"), DIG, rx.lit(u)))])
